@@ -19,7 +19,7 @@ one() {
   if ! (cd $w && git apply --whitespace=nowarn $d/patch.diff 2>$OUT/$id.apply); then
     echo "== $id: patch does not apply"; rm -rf $w; exit 0
   fi
-  YGOT_REPO=$w /verif/bin/ygotsa check ${CHECK:-all} --no-evidence > $OUT/$id.log 2>&1
+  YGOT_REPO=$w ${YGOTSA_BIN:-/verif/bin/ygotsa} check ${CHECK:-all} --no-evidence > $OUT/$id.log 2>&1
   rm -rf $w
   prop=${id%%-*}
   hits=$(grep -E "^VIOLATION|^UNDECIDED" $OUT/$id.log | sed -E 's/ replay=.*//; s/ rule=.*//' | sort -u | tr '\n' ';')
@@ -27,5 +27,5 @@ one() {
   echo "== $id own=$own :: $hits"
 }
 export -f one
-export OUT CHECK
+export OUT CHECK YGOTSA_BIN
 printf "%s\n" $IDS | xargs -P $J -I{} bash -c 'one {}' | sort
